@@ -261,19 +261,21 @@ theorem lruAdd_spec (c : CacheG T) (k : Nat) (hd : (akeys c.data).Nodup)
     (hk : 0 < c.limit → ∀ k', (k' ∈ c.lru ∨ k' = k) ↔ k' ∈ akeys c.data) :
     (CacheG.lruAdd ts c k).1.Inv ∧ (CacheG.lruAdd ts c k).1.limit = c.limit
     ∧ ((CacheG.lruAdd ts c k).2 = [] ∧ (CacheG.lruAdd ts c k).1.data = c.data
+         ∧ (CacheG.lruAdd ts c k).1.timers = c.timers
        ∨ ∃ old, (CacheG.lruAdd ts c k).2 = [old] ∧ (CacheG.lruAdd ts c k).1.data = aerase c.data old
-           ∧ c.lru.getLast? = some old ∧ old ≠ k ∧ k ∉ c.lru ∧ c.lru.length = c.limit) := by
+           ∧ c.lru.getLast? = some old ∧ old ≠ k ∧ k ∉ c.lru ∧ c.lru.length = c.limit
+           ∧ (CacheG.lruAdd ts c k).1.timers = (ts c.timers (.remove old)).1) := by
   unfold CacheG.lruAdd
   by_cases h0 : c.limit = 0
   · rw [if_pos h0]
     dsimp only
-    exact ⟨⟨hd, fun h => by omega, fun h => by omega, fun h => by omega⟩, rfl, Or.inl ⟨rfl, rfl⟩⟩
+    exact ⟨⟨hd, fun h => by omega, fun h => by omega, fun h => by omega⟩, rfl, Or.inl ⟨rfl, rfl, rfl⟩⟩
   · have hl : 0 < c.limit := by omega
     rw [if_neg h0]
     by_cases hm : k ∈ c.lru
     · rw [if_pos hm]
       dsimp only
-      refine ⟨⟨hd, fun _ => ?_, fun _ k' => ?_, fun _ => ?_⟩, rfl, Or.inl ⟨rfl, rfl⟩⟩
+      refine ⟨⟨hd, fun _ => ?_, fun _ k' => ?_, fun _ => ?_⟩, rfl, Or.inl ⟨rfl, rfl, rfl⟩⟩
       · simp only [List.nodup_cons, List.mem_filter, ne_eq, not_true_eq_false, decide_false, and_false,
           not_false_eq_true, true_and, Bool.false_eq_true]
         exact (hn hl).sublist List.filter_sublist
@@ -305,7 +307,7 @@ theorem lruAdd_spec (c : CacheG T) (k : Nat) (hd : (akeys c.data).Nodup)
           intro e; apply hm; rw [hys, e]; simp
         have hkys : k ∉ ys := fun hh => hm (by rw [hys]; exact List.mem_append_left _ hh)
         have hlen' := hlen hl
-        refine ⟨⟨?_, fun _ => ?_, fun _ k' => ?_, fun _ => ?_⟩, rfl, Or.inr ⟨old, rfl, rfl, ?_, hkold, hm, ?_⟩⟩
+        refine ⟨⟨?_, fun _ => ?_, fun _ k' => ?_, fun _ => ?_⟩, rfl, Or.inr ⟨old, rfl, rfl, ?_, hkold, hm, ?_, rfl⟩⟩
         · exact nodup_aerase _ _ hd
         · rw [onEvict_lru, hdrop]
           exact List.nodup_cons.2 ⟨hkys, hnd.1⟩
@@ -328,7 +330,7 @@ theorem lruAdd_spec (c : CacheG T) (k : Nat) (hd : (akeys c.data).Nodup)
       · rw [if_neg hov]
         dsimp only
         refine ⟨⟨hd, fun _ => List.nodup_cons.2 ⟨hm, hn hl⟩, fun _ k' => ?_,
-          fun _ => by simp only [List.length_cons] at hov ⊢; omega⟩, rfl, Or.inl ⟨rfl, rfl⟩⟩
+          fun _ => by simp only [List.length_cons] at hov ⊢; omega⟩, rfl, Or.inl ⟨rfl, rfl, rfl⟩⟩
         rw [← hk hl k']
         simp only [List.mem_cons]
         constructor <;> (rintro (e | e); exact Or.inr e; exact Or.inl e)
